@@ -221,7 +221,10 @@ def rand_case(rng, maxlen=40, maxops=6):
         script.insert(0, ['X'])
     if rng.random() < 0.45:
         script.append(['E'])
-    return dict(mode=mode, ops=ops, script=script)
+    case = dict(mode=mode, ops=ops, script=script)
+    if rng.random() < 0.15:
+        case['maxread'] = rng.choice([1, 2, 3, 5])        # reads that come back exactly as long as maxread (or longer)
+    return case
 
 
 def signature(case, res):
@@ -335,6 +338,55 @@ def stage_real_classes(ctx):
             if problems:
                 common.report(ctx, 'classes/%s/%s' % (label, 'unicode' if enc else 'bytes'), '%s (%s mode): %s' % (label, 'unicode' if enc else 'bytes', '; '.join(problems[:4])),
                               dict(stage='stage_real_classes', cls=label, encoding=enc, problems=problems))
+    # the stream ends inside a multi-byte character (text mode, strict errors): the outcome is still EOF - exactly that class - with the
+    # complete text in before, and EOF again afterwards
+    for kind in ('fdspawn', 'SocketSpawn', 'PopenSpawn'):
+        try:
+            if kind == 'fdspawn':
+                r_, w_ = os.pipe(); os.write(w_, b'abc\xe2\x82'); os.close(w_)
+                q_ = fdpexpect.fdspawn(r_, encoding='utf-8', timeout=2); fin_ = q_.close
+            elif kind == 'SocketSpawn':
+                a_, b_ = socket.socketpair(); b_.sendall(b'abc\xe2\x82'); b_.close()
+                q_ = socket_pexpect.SocketSpawn(a_, encoding='utf-8', timeout=2); fin_ = q_.close
+            else:
+                q_ = popen_spawn.PopenSpawn(['printf', 'abc\\342\\202'], encoding='utf-8', timeout=2); fin_ = (lambda q_=q_: (q_.proc.stdout.close(), q_.proc.wait()))
+            outs = []
+            for _ in range(2):
+                try:
+                    q_.expect('zz', timeout=2); outs.append('matched')
+                except BaseException as e:     # noqa
+                    outs.append(type(e).__name__)
+            bf = q_.before
+            n += 1
+            if outs != ['EOF', 'EOF'] or bf not in ('abc', ''):
+                common.report(ctx, 'classes/%s/eof-inside-character' % kind, '%s (utf-8, strict): the stream b"abc\\xe2\\x82" ends inside a character; expect() twice gave %r with before %r '
+                              '(expected EOF, EOF)' % (kind, outs, bf), dict(stage='stage_real_classes', cls=kind))
+            try:
+                fin_()
+            except Exception:
+                pass
+        except Exception as e:      # noqa
+            ctx.notes.append('eof-inside-character %s: %r' % (kind, e))
+    # a pty child ended by a signal that has no name (real-time range): the EOF message is built from str(spawn) all the same
+    try:
+        z_ = pexpect.spawn('/bin/sh', ['-c', 'kill -35 $$'], timeout=3)
+        outs = []
+        for _ in range(2):
+            try:
+                z_.expect('zz', timeout=3); outs.append('matched')
+            except BaseException as e:     # noqa
+                outs.append(type(e).__name__)
+        try:
+            str(z_); sx = 'ok'
+        except Exception as e:       # noqa
+            sx = type(e).__name__
+        z_.close(force=True)
+        n += 1
+        if outs != ['EOF', 'EOF'] or sx != 'ok':
+            common.report(ctx, 'classes/pty/unnamed-signal', 'pty child ended by signal 35: expect() twice gave %r, str(spawn): %s (expected EOF, EOF, ok)' % (outs, sx),
+                          dict(stage='stage_real_classes', cls='pty'))
+    except Exception as e:      # noqa
+        ctx.notes.append('unnamed-signal stage: %r' % (e,))
     # an object that was never started: str() must still work (pxssh before login)
     try:
         str(pxssh.pxssh()); str(pexpect.spawn(None))
@@ -343,6 +395,11 @@ def stage_real_classes(ctx):
     ctx.cov['real_class_states'] = n
 
 
+MAXREAD_CORPUS = [
+    dict(mode='b', maxread=3, ops=[dict(k='r', W=None, pats=[['re', 's', X.lit('MARK')], ['E']])], script=[['d', 'abc'], ['E']]),
+    dict(mode='u', maxread=2, ops=[dict(k='x', W=None, pats=[['s', 'zz']])], script=[['d', 'ab'], ['d', 'cd'], ['E']]),
+    dict(mode='b', maxread=1, ops=[dict(k='r', W=None, pats=[['re', 's', X.lit('q')], ['T']])], script=[['d', 'a'], ['d', 'b'], ['T']]),
+]
 RAW_LISTS = [
     [r'(\w+)=', r'(\d)\1'], [r'(\$|#) ', 'E', r'(["\'])\w+\1'], [r'(a)(b)\2', r'(x)\1'], [r'(?P<q>[ab])c(?P=q)', r'c'],
     [r'(?<=id: )\d\d', r'zz'], [r'(?<!x)ab', r'(b)\1'], [r'(a|b)\1+', r'(?:ab)+', 'T'], [r'\bab\b', r'(.)\1\1'],
@@ -380,7 +437,7 @@ def run(ctx):
     common.prove(ctx, MODULES[prop])
     if not ctx.quick():
         common.leanchecker(ctx, MODULES[prop])
-    cases = list(map(copy.deepcopy, CORPUS))
+    cases = list(map(copy.deepcopy, CORPUS)) + list(map(copy.deepcopy, MAXREAD_CORPUS))
     ncorpus = len(cases)
     if ctx.quick():
         ex = exhaustive(3, [None, 1, 2], [[], [['E']]])
